@@ -33,7 +33,9 @@ import (
 // Callback families (identical in Lean, Spec/C13.lean): predicates p0..p5, keys f0..f5, comparators
 // c0 a<b, c1 a>b, c2 a==b, c3 a<=b, c4 true, c5 false.
 
-func c13Pred(name string) func(int) bool {
+func c13Pred(name string) func(int) bool { return ft1(c13Pred0(name)) }
+
+func c13Pred0(name string) func(int) bool {
 	switch name {
 	case "p0":
 		return func(x int) bool { return x%2 == 0 }
@@ -51,7 +53,9 @@ func c13Pred(name string) func(int) bool {
 	panic("harness: bad predicate " + name)
 }
 
-func c13Key(name string) func(int) int {
+func c13Key(name string) func(int) int { return ft1(c13Key0(name)) }
+
+func c13Key0(name string) func(int) int {
 	switch name {
 	case "f0":
 		return func(x int) int { return x }
